@@ -318,13 +318,9 @@ def runCur (c : SubProto.Cfg) (labels : List String) : Json := Id.run do
                   ("pos", posJson (curPos s)), ("steps", Json.arr steps)]
       | some s' =>
         let spawned : Json := if s'.ks.length > s.ks.length then toJson s.ks.length else Json.null
-        -- Go's select picks at random among its ready cases: the step cannot be forced then
-        let selAlts := (SubProto.enabled c s).filter (fun e => match e with
-          | .lRecv | .lRecvNil => true
-          | .kSendC _ => !s.chC
-          | _ => false)
-        let isSel : Bool := match e with | .lRecv | .lRecvNil => true | .kSendC _ => !s.chC | _ => false
-        let amb : Bool := isSel && selAlts.length ≥ 2
+        -- the sender of a rendez-vous is released by the harness only for its own step (until then it
+        -- is held at its hook, not parked in the send): Listen's select never has two ready cases
+        let amb : Bool := false
         s := s'
         steps := steps.push (obj [("label", l), ("pos", posJson (curPos s)), ("fatal", optStr s.fatal), ("spawned", spawned), ("ambiguous", amb)])
         k := k + 1
@@ -347,11 +343,9 @@ def runFix (kn : SubProtoFixed.Knobs) (c : SubProto.Cfg) (labels : List String) 
       | some s' =>
         let spawned : Json := if s'.ks.length > s.ks.length then toJson s.ks.length else Json.null
         let byL : Bool := (lCloser s').isSome && (lCloser s).isNone
-        let selAlts := (SubProtoFixed.enabled kn c s).filter (fun e => match e with
-          | .lRecv | .lRecvNil | .lRecvClose => true
-          | _ => false)
-        let isSel : Bool := match e with | .lRecv | .lRecvNil | .lRecvClose => true | _ => false
-        let amb : Bool := isSel && selAlts.length ≥ 2
+        -- closeCh CLOSED is a permanently ready case of Listen's select: when a sender on respCh is
+        -- released as well Go picks at random, so a receive step cannot be forced once closeCh is closed
+        let amb : Bool := (match e with | .lRecv | .lRecvNil => true | _ => false) && s.chC
         s := s'
         steps := steps.push (obj [("label", l), ("pos", posJson (fixPos s)), ("fatal", optStr s.fatal),
           ("spawned", spawned), ("spawnedByL", byL), ("ambiguous", amb)])
